@@ -63,6 +63,8 @@ func vhC08Fill() {
 		FillerMeta(func(s string) string { wFill += vTextWidth(s); return s }).
 		TipMeta(func(s string) string { wTip += vTextWidth(s); return s }).
 		PaddingMeta(func(s string) string { wPad += vTextWidth(s); return s })
+	// two tip frames of display width 0..2 each (an animated tip): the frame drawn is frames[count%2]
+	st = st.Tip(vStyleText("tip0", 2), vStyleText("tip1", 2))
 	tipOnComplete := vBool("tipOnComplete")
 	if tipOnComplete {
 		st = st.TipOnComplete()
@@ -71,6 +73,8 @@ func vhC08Fill() {
 		st = st.Reverse()
 	}
 	f := st.Build()
+	f.(*bFiller).tip.count = vUint("tipCount")
+	vAssume(f.(*bFiller).tip.count <= 1<<40)
 	stat := vStat(vC08W)
 	stat.RequestedWidth = 0
 	var buf bytes.Buffer
@@ -80,7 +84,14 @@ func vhC08Fill() {
 	if inner > 0 {
 		cur := int(vInt64("pround0")) // cells the kernel returns for (total, current, inner)
 		filled := wRefill + wFill + wTip
-		vAssert(filled == cur, "C08.fill.filled-cells-equal-kernel-result")
+		// single-column filler runes: exact, except that a two-column tip drawn into a one-cell progress
+		// sticks out by one cell ("to within one rune")
+		want := cur
+		if wTip > cur {
+			want = wTip
+		}
+		vAssert(wTip <= 2 && (cur > 0 || wTip == 0), "C08.fill.tip-only-with-progress")
+		vAssert(filled == want, "C08.fill.filled-cells-equal-kernel-result")
 		vAssert(wPad == inner-filled, "C08.fill.rest-is-padding")
 		vAssert(wRefill <= filled, "C08.fill.refill-within-filled")
 		if stat.Refill == 0 {
@@ -97,4 +108,49 @@ func vhC08Fill() {
 		}
 	}
 	vCover("C08.fill.reach")
+}
+
+// C08 over consecutive frames: a filler is reused for every frame of its bar; what it draws for a frame depends
+// on that frame's statistics only (in particular a frame whose progress rounds to zero cells shows none, whatever
+// the previous frame showed). Second Fill on the same filler, independent statistics.
+func vhC08FillTwice() {
+	vUnwind(vC08W + 3)
+	var wRefill, wFill, wTip, wPad int
+	st := BarStyle().
+		RefillerMeta(func(s string) string { wRefill += vTextWidth(s); return s }).
+		FillerMeta(func(s string) string { wFill += vTextWidth(s); return s }).
+		TipMeta(func(s string) string { wTip += vTextWidth(s); return s }).
+		PaddingMeta(func(s string) string { wPad += vTextWidth(s); return s })
+	if vBool("reverse") {
+		st = st.Reverse()
+	}
+	f := st.Build()
+	stat := vStat(vC08W)
+	stat.RequestedWidth = 0
+	vAssume(stat.AvailableWidth > 2)
+	var buf bytes.Buffer
+	err := f.Fill(&buf, stat)
+	vAssert(err == nil, "C08.fill2.noerror")
+	// second frame
+	stat2 := stat
+	stat2.Total, stat2.Current, stat2.Refill = vInt64("total2"), vInt64("current2"), 0
+	stat2.Completed, stat2.Aborted = vBool("completed2"), vBool("aborted2")
+	wRefill, wFill, wTip, wPad = 0, 0, 0, 0
+	k := vPRCalls
+	var buf2 bytes.Buffer
+	err = f.Fill(&buf2, stat2)
+	vAssert(err == nil, "C08.fill2.noerror-2")
+	var cur int
+	if k == 1 {
+		cur = int(vInt64("pround1"))
+	} else {
+		cur = int(vInt64("pround2"))
+	}
+	inner := stat2.AvailableWidth - 2
+	filled := wRefill + wFill + wTip
+	vAssert(filled == cur, "C08.fill2.second-frame-shows-its-own-progress")
+	vAssert(wRefill == 0, "C08.fill2.no-refill-segment-left-over")
+	vAssert(wPad == inner-filled, "C08.fill2.rest-is-padding")
+	vAssert(vTextWidth(buf2.String()) == stat2.AvailableWidth, "C08.fill2.row-width")
+	vCover("C08.fill2.reach")
 }
